@@ -615,10 +615,19 @@ Inductive hop :=
   | OpEval (src : nat) (c : call) (v : option (car M))        (* obj.logd(args, keywords) *)
   | OpStack (src : nat) (ob : stage_obs)                      (* obj._as_stacked() *)
   | OpView (which src : nat) (ob : stage_obs)                 (* BayesianProblem.likelihood / .prior of the target *)
-  | OpSetData (src : nat) (kw : qasg) (ob : stage_obs).       (* BayesianProblem.set_data *)
+  | OpSetData (src : nat) (kw : qasg) (ob : stage_obs)        (* BayesianProblem.set_data *)
+  | OpJoin (srcs : list nat) (ob : stage_obs).                (* JointDistribution( objects ): re-assembly from reduced objects *)
 
 Definition get_obj (objs : list (option mobj)) (src : nat) : option mobj :=
   match nth_error objs src with Some (Some o) => Some o | _ => None end.
+
+(* a new joint assembled from single densities of the history (e.g. a reduced Distribution that
+   carries folded constants): the constructor checks run again *)
+Definition obj_join (os : list (option mobj)) : option mobj :=
+  match map_opt (fun o => match o with Some (OD f) => Some f | _ => None end) os with
+  | Some fs => if joint_init_ok fs then Some (OJ FJoint fs) else None
+  | None => None
+  end.
 
 Fixpoint check_prog (objs : list (option mobj)) (ops : list hop) : bool :=
   match ops with
@@ -650,19 +659,21 @@ Fixpoint check_prog (objs : list (option mobj)) (ops : list hop) : bool :=
           | Some o => let o' := bp_set_data o kw in stage_of o' ob && check_prog (objs ++ [o']) r
           | None => false
           end
+      | OpJoin srcs ob =>
+          let o' := obj_join (map (get_obj objs) srcs) in stage_of o' ob && check_prog (objs ++ [o']) r
       end
   end.
 
 Definition check_history_from (o : mobj) (ops : list hop) : bool := check_prog [Some o] ops.
 End Check.
 
-Arguments OpCond {M}. Arguments OpEval {M}. Arguments OpStack {M}. Arguments OpView {M}. Arguments OpSetData {M}.
+Arguments OpCond {M}. Arguments OpEval {M}. Arguments OpStack {M}. Arguments OpView {M}. Arguments OpSetData {M}. Arguments OpJoin {M}.
 
 (* ---- Q instances (exact when tol = 0) ---- *)
 Definition qCond := @OpCond QM. Definition qEval := @OpEval QM. Definition qStack := @OpStack QM.
-Definition qView := @OpView QM. Definition qSetData := @OpSetData QM.
+Definition qView := @OpView QM. Definition qSetData := @OpSetData QM. Definition qJoin := @OpJoin QM.
 Definition fCond := @OpCond FM. Definition fEval := @OpEval FM. Definition fStack := @OpStack FM.
-Definition fView := @OpView FM. Definition fSetData := @OpSetData FM.
+Definition fView := @OpView FM. Definition fSetData := @OpSetData FM. Definition fJoin := @OpJoin FM.
 Definition qeq (tol : Q) (obs model : Q) : bool := q_close tol obs model.
 
 Definition check_run (pnamed strict : bool) (tol : Q) (J : list qdens) steps obs evals : bool :=
